@@ -57,7 +57,7 @@ func (c10) Gen(r *Rng, tier string, emit func(string, Tok)) {
 	// (top byte, input byte) pairs over random low parts
 	nlow := 4
 	if tier == "thorough" {
-		nlow = 64
+		nlow = 8
 	}
 	for k := 0; k < nlow; k++ {
 		low := uint32(r.U64()) & 0x00ffffff
@@ -92,6 +92,8 @@ func (c10) Gen(r *Rng, tier string, emit func(string, Tok)) {
 		splits := n + 1
 		if splits > 40 && tier != "thorough" {
 			splits = 40
+		} else if splits > 300 {
+			splits = 300 // every cut of the short messages, 300 random cuts of the long ones
 		}
 		for s := 0; s < splits; s++ {
 			cut := s
